@@ -14,12 +14,16 @@ CONSTANTS PUs, Nodes, NodeCpus,
           SetChoices,      \* sequence of range lists (arguments of restrict / group / allow / cpukind)
           RestrictFlags,   \* flag words tried for restrict
           Objs,            \* number of anchor objects (misc parents, info targets, group_obj sources, distance objects)
-          MaxSteps, TwoSlots, NStripes, Stripe, SimLen
-VARIABLES pus, nodes, live, steps, hist
+          MaxSteps, TwoSlots, NStripes, Stripe, SimLen,
+          Lean,            \* TRUE: fewer argument combinations of the argument-heavy calls (allow, dist_add, group) - quick tier with two topologies
+          Ops,             \* the calls this configuration uses (focused configurations explore fewer calls deeper)
+          Tops             \* sequence of PU sets: the PUs below each child of the root (which restricts leave a single subtree, i.e. may merge levels)
+VARIABLES pus, nodes, live, steps, hist,
+          sig              \* signature of the history: per call <<name, slot, class>>; it is the part of the history the view keeps
 
 Slots == IF TwoSlots THEN {0, 1} ELSE {0}
 Init == /\ pus = [s \in {0, 1} |-> PUs] /\ nodes = [s \in {0, 1} |-> Nodes]
-        /\ live = [s \in {0, 1} |-> s = 0] /\ steps = 0 /\ hist = <<>>
+        /\ live = [s \in {0, 1} |-> s = 0] /\ steps = 0 /\ hist = <<>> /\ sig = <<>>
 
 Keep(r, x) == InR(r, x)
 \* same outcome function as MC_Restrict, per slot
@@ -34,31 +38,47 @@ Outcome(s, f, k) ==
       mustfail == RBadFlags(f) \/ (IF bynode THEN {n \in nodes[s] : Keep(r, n)} = {} ELSE {c \in pus[s] : Keep(r, c)} = {})
   IN IF mustfail \/ p2 = {} \/ n2 = {} THEN <<-1, pus[s], nodes[s]>> ELSE <<0, p2, n2>>
 
-Step(op) == /\ steps < MaxSteps /\ steps' = steps + 1 /\ hist' = Append(hist, op)
+\* class of a call: what of its arguments shapes the tree or the stores (the rest of the arguments is abstracted by the view)
+\*   insert_misc: the parent; cpukind: with infos or not; cpukind_info: which kind and which edit;
+\*   restrict: -1 when refused, else the number of subtrees below the root that keep a PU (1 = the levels below the root may merge)
+Class(op) == CASE op[1] = "insert_misc" -> op[3]
+               [] op[1] = "cpukind" -> op[5]
+               [] op[1] = "cpukind_info" -> 2 * op[3] + op[4]
+               [] OTHER -> 0
+StepC(op, c) == /\ steps < MaxSteps /\ steps' = steps + 1 /\ hist' = Append(hist, op) /\ sig' = Append(sig, <<op[1], op[2], c>>)
+Step(op) == StepC(op, Class(op))
+Survivors(P) == Cardinality({i \in DOMAIN Tops : Tops[i] \cap P # {}})
 
 Restrict == \E s \in Slots, f \in RestrictFlags, k \in DOMAIN SetChoices :
+              /\ "restrict" \in Ops
               /\ live[s]
               /\ LET o == Outcome(s, f, k) IN
                    /\ pus' = [pus EXCEPT ![s] = o[2]] /\ nodes' = [nodes EXCEPT ![s] = o[3]]
-                   /\ Step(<<"restrict", s, f, k, o[1]>>)
+                   /\ StepC(<<"restrict", s, f, k, o[1]>>, IF o[1] = -1 THEN -1 ELSE Survivors(o[2]) + (IF Bit(f, R_BYNODESET) THEN 10 ELSE 0))
               /\ UNCHANGED live
 
 \* calls that do not change the resources
+On(op) == op \in Ops
 Other == \E s \in Slots :
   /\ live[s]
-  /\ \/ \E a \in 1..Objs : Step(<<"insert_misc", s, a, 0, 0>>)
-     \/ \E k \in DOMAIN SetChoices, kind \in {0, 1, 2}, dm \in {0, 1} : Step(<<"group", s, k, kind, dm>>)
-     \/ \E k \in DOMAIN SetChoices : Step(<<"group_ns", s, k, 0, 0>>)
-     \/ \E a \in 1..Objs, dm \in {0, 1} : Step(<<"group_obj", s, a, dm, 0>>)
-     \/ Step(<<"group_free", s, 0, 0, 0>>)
-     \/ \E fl \in {1, 2, 4, 3, 8}, k \in DOMAIN SetChoices, which \in {0, 1, 2} : Step(<<"allow", s, fl, k, which>>)
-     \/ \E a \in 1..Objs : Step(<<"add_info", s, a, 0, 0>>)
-     \/ \E a \in 1..Objs, v \in {0, 1} : Step(<<"set_subtype", s, a, v, 0>>)
-     \/ Step(<<"refresh", s, 0, 0, 0>>)
-     \/ \E kind \in {5, 6, 9, 10, 0, 3, 64}, afl \in {0, 1, 2, 3, 8}, shape \in 1..4 : Step(<<"dist_add", s, kind, afl, shape>>)
-     \/ Step(<<"dist_remove", s, 0, 0, 0>>)
-     \/ \E fl \in {1, 2, 3, 0, 5}, a \in 1..Objs : Step(<<"memattr", s, fl, a, 0>>)
-     \/ \E k \in DOMAIN SetChoices, eff \in {-1, 0, 2} : Step(<<"cpukind", s, k, eff, 0>>)
+  /\ \/ On("insert_misc") /\ \E a \in 1..Objs : Step(<<"insert_misc", s, a, 0, 0>>)
+     \/ On("group") /\ \E k \in (IF Lean THEN {x \in DOMAIN SetChoices : x % 2 = 1} ELSE DOMAIN SetChoices), kind \in (IF Lean THEN {0} ELSE {0, 1, 2}), dm \in {0, 1} :
+                        Step(<<"group", s, k, kind, dm>>)
+     \/ On("group_ns") /\ \E k \in DOMAIN SetChoices : Step(<<"group_ns", s, k, 0, 0>>)
+     \/ On("group_obj") /\ \E a \in 1..Objs, dm \in {0, 1} : Step(<<"group_obj", s, a, dm, 0>>)
+     \/ On("group_free") /\ Step(<<"group_free", s, 0, 0, 0>>)
+     \/ On("allow") /\ \E fl \in (IF Lean THEN {1, 4} ELSE {1, 2, 4, 3, 8}), k \in (IF Lean THEN {x \in DOMAIN SetChoices : x <= 4} ELSE DOMAIN SetChoices),
+                            which \in (IF Lean THEN {0, 1} ELSE {0, 1, 2}) : Step(<<"allow", s, fl, k, which>>)
+     \/ On("add_info") /\ \E a \in 1..Objs : Step(<<"add_info", s, a, 0, 0>>)
+     \/ On("set_subtype") /\ \E a \in 1..Objs, v \in {0, 1} : Step(<<"set_subtype", s, a, v, 0>>)
+     \/ On("refresh") /\ Step(<<"refresh", s, 0, 0, 0>>)
+     \/ On("dist_add") /\ \E kind \in (IF Lean THEN {5, 6} ELSE {5, 6, 9, 10, 0, 3, 64}), afl \in (IF Lean THEN {0, 3} ELSE {0, 1, 2, 3, 8}), shape \in (IF Lean THEN {1, 3, 4} ELSE 1..4) :
+                           Step(<<"dist_add", s, kind, afl, shape>>)
+     \/ On("dist_remove") /\ Step(<<"dist_remove", s, 0, 0, 0>>)
+     \/ On("memattr") /\ \E fl \in {1, 2, 3, 0, 5}, a \in 1..Objs : Step(<<"memattr", s, fl, a, 0>>)
+     \/ On("cpukind") /\ \E k \in DOMAIN SetChoices, eff \in {-1, 0, 2}, inf \in {0, 1} : Step(<<"cpukind", s, k, eff, inf>>)
+     \* the infos of the k-th CPU kind are edited in place through hwloc_cpukinds_get_info + hwloc_modify_infos: 0 = all removed, 1 = one added
+     \/ On("cpukind_info") /\ \E k \in 0..1, mode \in {0, 1} : Step(<<"cpukind_info", s, k, mode, 0>>)
   /\ UNCHANGED <<pus, nodes, live>>
 
 Dup == /\ TwoSlots /\ live[0] /\ ~live[1]
@@ -72,12 +92,11 @@ Destroy == \E s \in Slots : /\ TwoSlots /\ live[0] /\ live[1]      \* either cop
                             /\ UNCHANGED <<pus, nodes>>
 
 Next == Restrict \/ Other \/ Dup \/ Destroy
-Spec == Init /\ [][Next]_<<pus, nodes, live, steps, hist>>
-\* the view keeps the signature of the history (which call on which slot, in order): the stores the calls fill (Misc and Group objects,
-\* distances, memory attributes, cpukinds, infos) are not model variables, so two histories that differ in the calls made are different
-\* states and every ordered combination of calls up to MaxSteps is an edge of the graph; arguments of earlier calls are abstracted
-Sig == [i \in 1..Len(hist) |-> <<hist[i][1], hist[i][2]>>]
-StateView == <<pus, nodes, live, steps, Sig>>
+Spec == Init /\ [][Next]_<<pus, nodes, live, steps, hist, sig>>
+\* the view keeps the signature of the history (which call on which slot, in order, with its class): the stores the calls fill (Misc and
+\* Group objects, distances, memory attributes, cpukinds, infos) are not model variables, so two histories that differ in the calls made are
+\* different states and every ordered combination of calls up to MaxSteps is an edge of the graph; other arguments of earlier calls are abstracted
+StateView == <<pus, nodes, live, steps, sig>>
 
 NeverEmpty == \A s \in Slots : pus[s] # {} /\ nodes[s] # {}
 \* a copy starts from what the original had, and the two evolve independently afterwards
@@ -85,6 +104,6 @@ CopyWithinOriginal == \A s \in Slots : pus[s] \subseteq PUs /\ nodes[s] \subsete
 
 RECURSIVE HSum(_)
 HSum(h) == IF h = <<>> THEN 0 ELSE (Len(Head(h)[1]) + Head(h)[2] * 11 + Head(h)[3] * 7 + Head(h)[4] * 3 + Head(h)[5] + 9) + 5 * HSum(Tail(h))
-EmitEdge == (HSum(hist') % NStripes = Stripe) => PrintT(<<"EDGE", ToJson(hist')>>)
+EmitEdge == (HSum(hist') % NStripes = Stripe) => PrintT(<<"EDGE", ToJson([h |-> hist', g |-> sig'])>>)
 EmitSim  == (Len(hist) = SimLen) => PrintT(<<"SIM", ToJson(hist)>>)
 =============================================================================
